@@ -7,7 +7,7 @@
    order of filepath.Walk is the order of the entries in the tree. *)
 From Coq Require Import List NArith ZArith Arith Bool Permutation String.
 From RareV Require Import Base.Hex Model.Lines Model.Batch Model.Pipeline Model.Exit Model.Input Gen.GenC06
-  Proofs.PipelineProof Proofs.PipelineEnd Proofs.InputWalk Proofs.InputProof Proofs.ExitProof.
+  Proofs.PipelineProof Proofs.PipelineEnd Proofs.InputWalk Proofs.InputProof Proofs.ExitProof Model.Skel Gen.GenSkel.
 Import ListNotations.
 
 (* clause "each path argument, each glob expansion and (with -R) each regular file below a directory
@@ -137,6 +137,15 @@ Print Assumptions C06_source_chunked.
 Example C06_script_example :
   script_reads_all (fun _ => Some ([97; 10; 98]%N, true)) (fun _ => 0) true 4 [(2, RNil); (2, RErr)] ([120]%N, Found (TFile [31; 139]%N)).
 Proof. unfold script_reads_all. simpl. intros o H. vm_compute in H. inversion H; subst. split; reflexivity. Qed.
+
+(* translator obligation for "an input that cannot be opened is counted as a read error and makes the
+   exit status 2": the model's rule s_rfail counts the error and finishes the reader in ONE step, so the
+   count is there when the batch channel closes and the command reads ReadErrors(). The source must not
+   separate the two: in the regenerated skeleton of OpenFilesToChan the reader goroutine calls
+   out.incErrors on the failure path itself (not in its deferred clean-up, which signals the wait group
+   first), returns right after it, and reads nothing (the conditions of Model/Skel.v, see C01_skeleton) *)
+Theorem C06_open_failure_counted_before_done : open_files_ok skel_open_files = true.
+Proof. vm_compute. reflexivity. Qed.
 
 (* clause "`-` or no argument reads standard input under the name <stdin>": standard input is used
    iff there is no argument or the FIRST argument is "-"; then it is the only source (further
